@@ -71,10 +71,6 @@ func binlogValue(col string, v driver.Value) interface{} {
 		}
 		return int8(v.(int64))
 	}
-	switch x := v.(type) {
-	case []byte:
-		return string(x)
-	}
 	return v
 }
 
@@ -311,7 +307,7 @@ func liveBody(c *runner.Ctx) {
 		case 3:
 			nick = strp("bc")
 		}
-		u := &User{Id: id, OrgId: int64(1 + c.Choose(2, "write-org")), Name: []string{"ann", "bob", "a", "ab"}[c.Choose(4, "write-name")], Nick: nick,
+		u := &User{Digest: []byte([]string{"d1", "d2"}[c.Choose(2, "write-digest")]), Id: id, OrgId: int64(1 + c.Choose(2, "write-org")), Name: []string{"ann", "bob", "a", "ab"}[c.Choose(4, "write-name")], Nick: nick,
 			Age: int32(20 + 10*c.Choose(2, "write-age")), Kind: Kind([]string{"k1", "k2"}[c.Choose(2, "write-kind")]), Active: c.Choose(2, "write-active") == 1}
 		var err error
 		op := []string{"upsert", "update", "delete", "insert", "multi-update", "multi-delete", "multi-insert"}[c.Choose(7, "write-op")]
